@@ -4,8 +4,8 @@
 
 static std::vector<Prop> props() {
     return {
-        Prop("hist_amg", run_history<KAmg>, 1500, 20000, 100, 25, {1}, 3, 8),
-        Prop("hist_relax", run_history<KRelax>, 1500, 15000, 100, 25, {1}, 2, 8),
+        Prop("hist_amg", run_history<KAmg>, 1500, 20000, 100, 12, {1}, 3, 8),
+        Prop("hist_relax", run_history<KRelax>, 1500, 15000, 100, 12, {1}, 2, 8),
     };
 }
 static std::vector<Enum> enums() { return {}; }
